@@ -33,6 +33,10 @@ CHECKS = {
          "DESIGN.md §3 C07",
          "Held on every executed case: each of the 160 MISCSELECT/ATTRIBUTES bits flipped in the report is rejected when the mask covers it and accepted when it does not, identity value bits outside the mask never match, every MRSIGNER bit, ISVPRODID boundary values, wrong lengths / bad hex rejected, all 21 + 441 one- and two-level lists over {below, equal, above} x 7 statuses agree with the reference, byte-order traps for ISVSVN.",
          "Only the QE-related content varies; the rest of each world is honest and was accepted."),
+ "C12": ("exploration", "runtime monitoring: recording getter + offline check of recorded verification histories against the 'fresh options' model; option-monotonicity monitor over a shared fault corpus",
+         "DESIGN.md §3 C12",
+         "Held on every executed world and history: for worlds drawn from all fault families, accept(coll+crl) => accept(coll) => accept(base) and crl-without-coll rejects; the recording getter saw no request with collateral off, CRL endpoints only with revocation on, the TCB-Info URL naming the FMSPC decoded independently from the leaf (incl. permuted extension elements) and the PCK-CRL URL naming platform/processor by issuer; 200+ histories of 2-6 verifications through one shared Options value give the verdicts of fresh values; one wall-clock history across a certificate expiry with Options.Now nil.",
+         "The stale-default-time sub-check reads the wall clock (6 s) and degrades to inconclusive on a slow machine."),
  "C09": ("exploration", "runtime monitoring: differential comparison of the library parser/serialiser with an independent reference layout parser/serialiser on hostile byte strings and generated messages",
          "DESIGN.md §3 C09",
          "Held on every executed input: same acceptance set as the reference v4 layout parser, every parsed field equal to the reference slice (so a self-consistent offset swap in parser and serialiser is visible), serialise(parse(b)) == b byte for byte, exported part serialisers equal the corresponding input slices, and generated well-formed messages serialise to the reference bytes and parse back proto.Equal. Exhaustive over truncation lengths and size-field boundary grids of the sampled quotes only.",
